@@ -1,7 +1,7 @@
 #!/usr/bin/env python3
 """Apply each mutant patch (mutants/<prop>__<name>.patch or seeded/<id>/patch.diff) to a scratch copy of /repo,
 run the owning check's quick tier against the copy (VERIF_REPO), expect exit 1 (VIOLATION). The copy is removed
-immediately. Usage: tools/run_mutants.py [filter-substring] [--tier quick|thorough] [--also C05,C07]"""
+immediately. Usage: tools/run_mutants.py [filter-substring] [--tier quick|thorough] [--also C05,C07] [-j N]"""
 import json
 import os
 import pathlib
@@ -18,12 +18,15 @@ def main():
     tier = "quick"
     also = []
     filt = None
+    jobs = 1
     while args:
         a = args.pop(0)
         if a == "--tier":
             tier = args.pop(0)
         elif a == "--also":
             also = args.pop(0).split(",")
+        elif a == "-j":
+            jobs = int(args.pop(0))
         else:
             filt = a
     items = []
@@ -38,9 +41,10 @@ def main():
             m = json.loads(meta.read_text())
             items.append((f"seeded/{d.name}", m.get("checks") or [m["property"]], d / "patch.diff"))
     results = []
-    for name, props, patch in items:
-        if filt and filt not in name:
-            continue
+
+    def run_item(item):
+        name, props, patch = item
+        out = []
         tmp = pathlib.Path(tempfile.mkdtemp(prefix="mut_"))
         try:
             shutil.copytree("/repo/src", tmp / "src")
@@ -49,16 +53,14 @@ def main():
                 fp = tmp / "src" / file
                 text = fp.read_text()
                 if text.count(old) != 1:
-                    results.append((name, "PATCH-FAILED", f"old text found {text.count(old)} times"))
                     print(f"PATCH-FAILED {name}: old text found {text.count(old)} times", flush=True)
-                    continue
+                    return [(name, "PATCH-FAILED", f"old text found {text.count(old)} times")]
                 fp.write_text(text.replace(old, new))
             else:
                 r = subprocess.run(["patch", "-p1", "-s", "-d", str(tmp), "-i", str(patch)], capture_output=True, text=True)
                 if r.returncode != 0:
-                    results.append((name, "PATCH-FAILED", r.stdout + r.stderr))
                     print(f"PATCH-FAILED {name}: {r.stdout}{r.stderr}"[:300], flush=True)
-                    continue
+                    return [(name, "PATCH-FAILED", r.stdout + r.stderr)]
             for prop in list(props) + also:
                 env = dict(os.environ, VERIF_REPO=str(tmp), VERIF_NO_EVIDENCE="1")
                 r = subprocess.run([str(ROOT / "check"), prop, tier], capture_output=True, text=True, env=env, cwd=str(ROOT))
@@ -66,10 +68,22 @@ def main():
                 if tag == "CAUGHT" and f"VIOLATION property={prop}" not in r.stdout:
                     tag = "ERROR"
                 first = next((l for l in r.stdout.splitlines() if l.strip().startswith("witness")), "")[:300]
-                results.append((f"{name} [{prop}]", tag, first))
+                out.append((f"{name} [{prop}]", tag, first))
                 print(f"{tag:12} {name} [{prop}] {first[:200]}", flush=True)
         finally:
             shutil.rmtree(tmp, ignore_errors=True)
+        return out
+
+    todo = [it for it in items if not filt or filt in it[0]]
+    if jobs > 1:
+        from concurrent.futures import ThreadPoolExecutor
+
+        with ThreadPoolExecutor(jobs) as ex:
+            for out in ex.map(run_item, todo):
+                results.extend(out)
+    else:
+        for it in todo:
+            results.extend(run_item(it))
     missed = [r for r in results if r[1] != "CAUGHT"]
     print(f"\n{len(results) - len(missed)}/{len(results)} caught")
     return 1 if missed else 0
